@@ -1,6 +1,7 @@
 (* C05 property theorems: statements only; every proof is [exact lemma]. *)
-From Gv Require Import lib.Bytes lib.Gql C05.Lex C05.Parse C05.Limits C05.Print C05.Spec
-  C05.ProofsLex C05.ProofsLimits C05.ProofsParse C05.ProofsMisc gen.Anchors_C05.
+From Gv Require Import lib.Bytes lib.Gql C05.Lex C05.Parse C05.Limits C05.Print C05.Spec C05.Tokens
+  C05.ProofsLex C05.ProofsLimits C05.ProofsParse C05.ProofsMisc C05.ProofsTotal C05.ProofsRoundtrip C05.ProofsWf
+  C05.ProofsFinal gen.Anchors_C05.
 From Coq Require Import ZArith.
 
 (* the model uses the rune / keyword / identifier-keyword tables of the Go source, and the source has the repair *)
@@ -45,3 +46,50 @@ Theorem c05_limits_fields_refuted :
               tokenize_limits false 0 3 b = Some (LOk, 1%Z, 2%Z).
 Proof. exact limits_fields_refuted_proof. Qed.
 Print Assumptions c05_limits_fields_refuted.
+
+(* the same, on bytes: what ParseWithLimits does with a document that parses *)
+Theorem c05_limits_sound_bytes : forall L F b d r v dp fl,
+  parse_bytes b = Ok d r -> exceeds L F d -> tokenize_limits true L F b = Some (v, dp, fl) -> v <> LOk.
+Proof. exact limits_sound_bytes_proof. Qed.
+Print Assumptions c05_limits_sound_bytes.
+
+(* ---- parser (executable documents): never out of fuel, for all token lists / byte lists ---- *)
+Theorem c05_parse_total : forall ts, parse ts <> Oof.
+Proof. exact parse_total_proof. Qed.
+Print Assumptions c05_parse_total.
+
+Theorem c05_parse_bytes_total : forall b, (len b < two32)%N -> parse_bytes b <> Oof.
+Proof. exact parse_bytes_total_proof. Qed.
+Print Assumptions c05_parse_bytes_total.
+
+(* every parsed tree is well-formed (enum values are not true/false/null, a spread is not named
+   "on", no bare "...", no "!!", definitions have a selection set) *)
+Theorem c05_parse_wf : forall ts d r, parse ts = Ok d r -> wf_doc d = true.
+Proof. exact parse_wf_proof. Qed.
+Print Assumptions c05_parse_wf.
+
+(* the parser inverts the token-level printer, whatever the spacing (compact or indented) *)
+Theorem c05_print_parse : forall d ts, wf_doc d = true -> matches (etoks d) ts -> parse ts = Ok d [].
+Proof. exact print_parse_tokens_proof. Qed.
+Print Assumptions c05_print_parse.
+
+(* round trip on bytes, both printers ([ind = None] compact, [Some i] indented).  _partial: the
+   lexical half -- lexing the printed bytes gives the token-level print -- is the explicit,
+   executable hypothesis [lex_print_ok_b]; it is evaluated on every checked input *)
+Theorem c05_roundtrip_partial : forall ind b d r,
+  parse_bytes b = Ok d r -> lex_print_ok_b ind d = true -> parse_bytes (print_doc ind d) = Ok d [].
+Proof. exact roundtrip_partial_proof. Qed.
+Print Assumptions c05_roundtrip_partial.
+
+Theorem c05_print_fixpoint_partial : forall ind b d r d' r',
+  parse_bytes b = Ok d r -> lex_print_ok_b ind d = true ->
+  parse_bytes (print_doc ind d) = Ok d' r' -> print_doc ind d' = print_doc ind d.
+Proof. exact print_fixpoint_partial_proof. Qed.
+Print Assumptions c05_print_fixpoint_partial.
+
+(* without the hypothesis the round trip is false of the faithful model: a block string whose
+   content ends in a quote *)
+Theorem c05_roundtrip_refuted :
+  exists b d, parse_bytes b = Ok d [] /\ parse_bytes (print d) = Err /\ lex_print_ok_b None d = false.
+Proof. exact roundtrip_refuted_proof. Qed.
+Print Assumptions c05_roundtrip_refuted.
